@@ -1,4 +1,4 @@
 #!/bin/bash
-# import7.sh Cxx: copy the round-7 seeds k/l of a property from /tmp/wt7-Cxx into seeded/ and print the eval list lines
+# import7.sh Cxx: copy the round-7 seeds k/l of a property from /tmp/wt8-Cxx into seeded/ and print the eval list lines
 p=$1
-for v in k l; do s=/tmp/wt7-$p/seeded/$v; [ -f $s/patch.diff ] || continue; mkdir -p /verif/seeded/$p/$v; cp $s/patch.diff $s/demo.py $s/README.md /verif/seeded/$p/$v/; (cd /repo && git apply --check /verif/seeded/$p/$v/patch.diff) || echo "PATCH DOES NOT APPLY $p/$v" >&2; echo "r7-$p-$v seed seeded/$p/$v $p"; done
+for v in k l; do s=/tmp/wt8-$p/seeded/$v; [ -f $s/patch.diff ] || continue; mkdir -p /verif/seeded/$p/$v; cp $s/patch.diff $s/demo.py $s/README.md /verif/seeded/$p/$v/; (cd /repo && git apply --check /verif/seeded/$p/$v/patch.diff) || echo "PATCH DOES NOT APPLY $p/$v" >&2; echo "r7-$p-$v seed seeded/$p/$v $p"; done
